@@ -348,11 +348,12 @@ func (p *RistrettoPoint) Sub(a, b *RistrettoPoint) *RistrettoPoint {
 
 // Sum sets p to the sum of values, and returns p.
 func (p *RistrettoPoint) Sum(values []*RistrettoPoint) *RistrettoPoint {
-	p.Identity()
+	var sum RistrettoPoint
+	sum.Identity()
 	for _, v := range values {
-		p.Add(p, v)
+		sum.Add(&sum, v)
 	}
-	return p
+	return p.Set(&sum)
 }
 
 // Neg sets `p = -t`, and returns p.
